@@ -41,7 +41,7 @@ const chunkSize = 2048
 type unit struct {
 	face    int // index into the sampled faces
 	setting int
-	kind    uint8 // 0 face-level (+cmap at the default setting), 1 glyph range
+	kind    uint8 // 0 face-level (+cmap at the default setting), 1 glyph range, 2 glyph subset
 	lo, hi  uint32
 	cost    int64
 }
@@ -106,6 +106,10 @@ func makePlan(sweep bool) *plan {
 				faceCost += int64(tr.NumGlyphs) * 2 // cmap
 			}
 			p.units = append(p.units, unit{face: fi, setting: si, kind: 0, cost: faceCost})
+			if sets[si].Extra && tr.NumGlyphs > subsetAbove {
+				p.units = append(p.units, unit{face: fi, setting: si, kind: 2, cost: 2000*perGlyph + 50})
+				continue
+			}
 			for lo := 0; lo < tr.NumGlyphs; lo += chunkSize {
 				hi := lo + chunkSize
 				if hi > tr.NumGlyphs {
@@ -240,13 +244,38 @@ func runUnit(t *testing.T, c *fctx, u unit, sweep bool) {
 		return
 	}
 	var n, nt, ntComposite int64
-	for g := u.lo; g < u.hi; g++ {
+	one := func(g uint32) {
 		n++
 		if c.checkGlyph(t, g) {
 			nt++
 			if c.hasGlyf && c.glyf.kindOf(g) == glyphKindComposite {
 				ntComposite++
 			}
+		}
+	}
+	if u.kind == 2 {
+		// glyph subset of a large face under an extra setting: every k-th glyph (seeded phase) plus
+		// every composite glyph (every k2-th if there are more than 1000)
+		k := uint32(c.nGlyphs/1000 + 1)
+		phase := uint32(uint64(ev.Seed()) % uint64(k))
+		nComp := 0
+		if c.hasGlyf {
+			nComp = c.glyf.nComposite
+		}
+		k2, seen := nComp/1000+1, 0
+		for g := uint32(0); g < uint32(c.nGlyphs); g++ {
+			comp := c.hasGlyf && c.glyf.kindOf(g) == glyphKindComposite
+			if comp {
+				seen++
+			}
+			if g%k == phase || (comp && seen%k2 == 0) {
+				one(g)
+			}
+		}
+		ev.Label("setting-on-glyph-subset")
+	} else {
+		for g := u.lo; g < u.hi; g++ {
+			one(g)
 		}
 	}
 	ev.CaseEnum(n, nt)
@@ -260,7 +289,14 @@ func runUnit(t *testing.T, c *fctx, u unit, sweep bool) {
 	}
 	if c.isVar {
 		ev.LabelN("nontrivial:variable-at-non-default-coords", nt)
-		ev.Label("setting:" + strings.TrimRight(c.set.Name, "0123456789+-"))
+		switch {
+		case c.set.Extra && strings.HasPrefix(c.set.Name, "only-"):
+			ev.Label("setting:one-axis-alone-at-extreme")
+		case c.set.Extra:
+			ev.Label("setting:pair-of-axes-at-extremes")
+		default:
+			ev.Label("setting:" + strings.TrimRight(c.set.Name, "0123456789+-"))
+		}
 	}
 	if tr.Vmtx {
 		ev.LabelN("nontrivial:vertical-metrics", nt)
